@@ -195,3 +195,5 @@ _add("C13", "the cached last input (currentRules) is written only on executions 
 _add("C14", "the cached last input is written only together with the enforced maps (the 'unchanged' short-circuit compares against what is enforced).")
 _add("C05", "a throttled value admitted without waiting leaves its last-pass cell at the clock reading (idle time is not banked as credit).")
 _add("C11", "no write leaves a negative token balance in the warm-up calculator's storedTokens (published values are constants >= 0, the refill result or guarded differences; an in-place subtraction is followed by a reset to 0 on the negative branch).")
+_add("C17", "the comparator ordering metric log files uses a lexicographic string comparison only where it agrees with the numeric order of roll numbers (equal lengths established, or differing date parts).")
+_add("C06", "everything that releases the per-value unit on exit runs inside the once-only section of Exit (two overlapping Exit calls release one unit, not two).")
